@@ -2,6 +2,7 @@ package main
 
 import (
 	"fmt"
+	"go/types"
 
 	"golang.org/x/tools/go/ssa"
 )
@@ -91,3 +92,107 @@ func init() {
 }
 
 func (ex *Exec) modelUsed(s string) { ex.assumed["library model: "+s] = true }
+
+// ---- bytes.Buffer (write side) ----
+//
+// The models below describe a Buffer whose read offset is 0 (nothing has been
+// read from it): then Bytes() is the whole internal slice, and Write/ReadFrom
+// behave like append on that slice: in place when the capacity suffices,
+// otherwise into a fresh allocation (bytes.Buffer.grow never slides data when
+// off == 0). Each use emits an obligation that off == 0.
+
+func bufferType(callee *ssa.Function) (types.Type, int, int) {
+	var pt types.Type
+	if callee.Signature.Recv() != nil {
+		pt = callee.Signature.Recv().Type()
+	} else {
+		pt = callee.Signature.Results().At(0).Type()
+	}
+	t := pt.Underlying().(*types.Pointer).Elem()
+	stt := t.Underlying().(*types.Struct)
+	bi, oi := -1, -1
+	for i := 0; i < stt.NumFields(); i++ {
+		switch stt.Field(i).Name() {
+		case "buf":
+			bi = i
+		case "off":
+			oi = i
+		}
+	}
+	return t, bi, oi
+}
+
+func (ex *Exec) bufferOffZero(fr *Frame, instr ssa.CallInstruction, pc Term, st State, recv Term, t types.Type, oi int) {
+	off := ex.load(st, pc, ex.fieldAddr(recv, t, oi), types.Typ[types.Int])
+	ex.nSafety["model.buffer"]++
+	o := &Obligation{ID: fmt.Sprintf("%s#model.buffer%d", ex.fnID, ex.nSafety["model.buffer"]), Func: ex.fnID, Kind: "model.pre", Props: ex.props, Where: posOf(fr.fn, instr.Pos()), Detail: "bytes.Buffer model applies to a buffer nothing was read from (off == 0)"}
+	ex.vc.oblige(o, pc, eq(off, intLit(0)))
+}
+
+func init() {
+	byteT := types.Typ[types.Uint8]
+	byteSlice := types.NewSlice(byteT)
+	externModels["bytes.NewBuffer"] = func(ex *Exec, fr *Frame, instr ssa.CallInstruction, c *ssa.CallCommon, args []Term, pc Term, st State) (State, Term, bool) {
+		ex.modelUsed("bytes.NewBuffer(b): a new Buffer whose contents are b and whose read offset is 0")
+		t, bi, _ := bufferType(c.StaticCallee())
+		ex.nLoc++
+		r := refLoc(ex.nLoc)
+		st = ex.store(st, pc, &Addr{Ref: r, Elem: t}, t, ex.te.zero(t))
+		st = ex.store(st, pc, ex.fieldAddr(r, t, bi), byteSlice, args[0])
+		return st, r, true
+	}
+	externModels["(*bytes.Buffer).Bytes"] = func(ex *Exec, fr *Frame, instr ssa.CallInstruction, c *ssa.CallCommon, args []Term, pc Term, st State) (State, Term, bool) {
+		ex.modelUsed("(*bytes.Buffer).Bytes/Len with read offset 0: the internal slice and its length")
+		t, bi, oi := bufferType(c.StaticCallee())
+		ex.bufferOffZero(fr, instr, pc, st, args[0], t, oi)
+		return st, ex.load(st, pc, ex.fieldAddr(args[0], t, bi), byteSlice), true
+	}
+	externModels["(*bytes.Buffer).Len"] = func(ex *Exec, fr *Frame, instr ssa.CallInstruction, c *ssa.CallCommon, args []Term, pc Term, st State) (State, Term, bool) {
+		ex.modelUsed("(*bytes.Buffer).Bytes/Len with read offset 0: the internal slice and its length")
+		t, bi, oi := bufferType(c.StaticCallee())
+		ex.bufferOffZero(fr, instr, pc, st, args[0], t, oi)
+		return st, sLen(ex.load(st, pc, ex.fieldAddr(args[0], t, bi), byteSlice)), true
+	}
+	externModels["(*bytes.Buffer).Write"] = func(ex *Exec, fr *Frame, instr ssa.CallInstruction, c *ssa.CallCommon, args []Term, pc Term, st State) (State, Term, bool) {
+		ex.modelUsed("(*bytes.Buffer).Write(p) with read offset 0: buf = append(buf, p...), returns (len(p), nil)")
+		t, bi, oi := bufferType(c.StaticCallee())
+		ex.bufferOffZero(fr, instr, pc, st, args[0], t, oi)
+		fa := ex.fieldAddr(args[0], t, bi)
+		old := ex.load(st, pc, fa, byteSlice)
+		nst, nb := ex.appendCore(pc, st, old, args[1], byteT)
+		nst = ex.store(nst, pc, fa, byteSlice, nb)
+		return nst, Term{Tuple: []Term{sLen(args[1]), ex.te.zero(c.Signature().Results().At(1).Type())}}, true
+	}
+	externModels["(*bytes.Buffer).ReadFrom"] = func(ex *Exec, fr *Frame, instr ssa.CallInstruction, c *ssa.CallCommon, args []Term, pc Term, st State) (State, Term, bool) {
+		ex.modelUsed("(*bytes.Buffer).ReadFrom(r) with read offset 0: appends the m >= 0 bytes r produced (contents unknown) keeping the earlier bytes, possibly into a fresh allocation; returns (m, err); r.Read writes only into the slice it is given")
+		t, bi, oi := bufferType(c.StaticCallee())
+		ex.bufferOffZero(fr, instr, pc, st, args[0], t, oi)
+		fa := ex.fieldAddr(args[0], t, bi)
+		old := ex.load(st, pc, fa, byteSlice)
+		oldH := ex.get(st, "C|uint8", arraySort(SRef, SInt))
+		keys := ex.g.siteFrame(instr)
+		keys["C|uint8"] = true
+		before := st
+		st = ex.havocKeys(st, keys, "bytes.Buffer.ReadFrom")
+		ex.preserveLocals(fr, pc, before, st, keys, c)
+		m := ex.vc.fresh("nread", SInt)
+		err := ex.vc.fresh("readerr", SIface)
+		ex.nLoc++
+		fresh := refLoc(ex.nLoc)
+		moved := ex.vc.fresh("realloc", SBool)
+		ncap := ex.vc.fresh("newcap", SInt)
+		newLen := ex.vc.def("buflen", app(SInt, "+", sLen(old), m))
+		nb := ex.vc.def("bufafter", ite(moved, mkSlice(fresh, intLit(0), newLen, ncap), mkSlice(sBase(old), sOff(old), newLen, sCap(old))))
+		ex.vc.assume(pc, and(app(SBool, "<=", intLit(0), m), app(SBool, "<=", newLen, ncap), implies(not(moved), app(SBool, "<=", newLen, sCap(old)))), "ReadFrom result")
+		newH := ex.get(st, "C|uint8", arraySort(SRef, SInt))
+		ex.vc.assume(pc, T(fmt.Sprintf("(forall ((i Int)) (! (=> (and (<= 0 i) (< i %s)) (= (select %s (at %s i)) (select %s (at %s i)))) :pattern ((select %s (at %s i)))))",
+			sLen(old).S, newH.S, nb.S, oldH.S, old.S, newH.S, nb.S), SBool), "ReadFrom keeps the earlier bytes")
+		// a buffer that was not reallocated leaves every byte outside the appended range alone;
+		// the old allocation is untouched when it was reallocated
+		ex.vc.assume(pc, T(fmt.Sprintf("(forall ((i Int)) (! (=> (and (<= 0 i) (< i %s)) (= (select %s (at %s i)) (select %s (at %s i)))) :pattern ((select %s (at %s i)))))",
+			sLen(old).S, newH.S, old.S, oldH.S, old.S, newH.S, old.S), SBool), "ReadFrom does not touch the earlier bytes in the old allocation")
+		st = ex.store(st, pc, fa, byteSlice, nb)
+		st = ex.store(st, pc, ex.fieldAddr(args[0], t, oi), types.Typ[types.Int], intLit(0))
+		return st, Term{Tuple: []Term{m, err}}, true
+	}
+}
